@@ -5,6 +5,7 @@ SyntaxParser(py_rules()).parse(...).simplify() on sentences of py_gram.lark and 
 Oracle: canon(parse(s)) == canon(ast.parse(s)); mutated text: accepted with the CPython tree, or
 Errors.Syntax whose summary names a token of the input and an existing line."""
 from lib import *
+import ast
 import re
 
 IMPORTS = 'From Tranp Require Import Model.Peg Model.Lexer Properties.C12 Properties.C11.'
@@ -51,6 +52,8 @@ def run(ctx: Ctx) -> None:
         mutated = i % 5 == 4
         if mutated:
             src = owngen.mutate(rnd, src)
+        if i < len(REJECTED):
+            src, mutated = REJECTED[i], True      # texts whose defect sits at the very start, in the middle, at the end: on every run
         if not src.strip():
             continue
         try:
@@ -94,6 +97,12 @@ def run(ctx: Ctx) -> None:
                 ctx.violation('summary-malformed', 'the Errors.Syntax summary does not name a token and a line', dict(input=dict(source=src), impl_result=got[1][:400]))
             else:
                 line_no, qline = int(m.group(4)), m.group(5)
+                try:
+                    tok = ast.literal_eval(m.group(3))
+                except Exception:
+                    tok = None
+                if isinstance(tok, str) and not tok.startswith('\\') and tok.strip() and tok not in src:
+                    ctx.violation('summary-token', 'the Errors.Syntax summary names a token that does not occur in the input', dict(input=dict(source=src), impl_result=got[1][:400]))
                 lines = src.split('\n')
                 if not (1 <= line_no <= len(lines)) or lines[line_no - 1] != qline:
                     ctx.violation('summary-line', 'the Errors.Syntax summary quotes a line that is not the source line it names', dict(input=dict(source=src), impl_result=got[1][:400]))
@@ -106,6 +115,9 @@ def run(ctx: Ctx) -> None:
     ctx.correspond('py_parse', IMPORTS, 'str * option ttree',
                    'fun c => match py_parse (fst c), snd c with POk t, Some w => ttree_eqb t w | PSyntax, None => true | _, _ => false end',
                    cases, raw, shard=5)
+
+
+REJECTED = ['= 1\n', '.b = 1\nc\n', ') + 1\n', ': a\n', 'in a\n', 'else:\n\ta\n', 'elif a:\n\tb\nc\n', 'a +\n', 'a = = b\n', 'if a:\n\tb\nelse\n\tc\n', 'a = (1\n', 'def f(:\n\tpass\n']
 
 
 def first_diff(a, b, path=''):
